@@ -68,24 +68,29 @@ func main() {
 		}
 	}
 	add(c.Pick(1, 6), cfg{1, 0, false})
-	add(c.Pick(5, 80), cfg{3, 0, false})
-	add(c.Pick(3, 60), cfg{4, 0, false})
-	add(c.Pick(4, 80), cfg{4, 1, false})
-	add(c.Pick(2, 40), cfg{4, 1, true})
+	add(c.Pick(6, 80), cfg{3, 0, false})
+	add(c.Pick(4, 60), cfg{4, 0, false})
+	add(c.Pick(7, 80), cfg{4, 1, false})
+	add(c.Pick(4, 40), cfg{4, 1, true})
 	// colluding-producer runs (n<0 marks the class)
+	firstCollude := len(runs)
 	add(c.Pick(1, 4), cfg{-1, 0, false})
-	add(c.Pick(4, 60), cfg{-3, 0, false})
-	add(c.Pick(3, 60), cfg{-4, 0, false})
+	add(c.Pick(6, 60), cfg{-3, 0, false})
+	add(c.Pick(6, 60), cfg{-4, 0, false})
 	var wg sync.WaitGroup
 	sem := make(chan struct{}, c.Pick(5, 5))
+	only := os.Getenv("C08_ONLY") // development: run a single run index
 	for i, rc := range runs {
+		if only != "" && only != fmt.Sprintf("r%d", i) && only != fmt.Sprintf("v%d", i) {
+			continue
+		}
 		wg.Add(1)
 		sem <- struct{}{}
 		go func(i int, rc cfg) {
 			defer wg.Done()
 			defer func() { <-sem }()
 			if rc.n < 0 {
-				collude(c, i, -rc.n)
+				collude(c, i, i-firstCollude, -rc.n)
 				return
 			}
 			run(c, i, rc.n, rc.byz, rc.lie)
@@ -95,11 +100,16 @@ func main() {
 	c.Finish("n in {1,3,4} node processes with the unmodified DPoS object (signature, producer set, slot owner, LIB) run on logical slots: the slot owner produces with the real producer path on its own best block; a seeded scheduler delivers, delays, reorders, drops (with later parents-first repair) and partitions; correct nodes skip slots; with n=4 one producer is Byzantine (equivocates in its slot on the same or different parents towards different node subsets, extends stale forks, optionally lies in the Confirms header field). After every delivery on every correct node: reported LIB never decreases, lies on the node's main chain, no main-chain block at or below any LIB ever reported changes afterwards, LIB is confirmed by blocks of > 2/3 distinct producers (honest-Confirms runs), LIBs of any two correct nodes lie on one branch of the global block tree; a restarted node reports the same LIB and best block; a block numbered at or below the LIB the node has reported, which the node does not have, is refused. Colluding-producer runs (agreement not claimed): all producers are scripted, one correct node is observed; a second branch is started at a root on the first chain, a prefix of it is stored while the root is still at or above the LIB, the first chain grows until the LIB has passed the root, then the rest of the second branch (longer) is delivered parents- or children-first: the main chain must not change when the root is below the LIB. A case = one delivery; non-trivial = delivery in a run in which LIB advanced beyond genesis; distinct = hash(run, step)",
 		c.Pick(100, 2000),
 		"bounded: n<=4, f<=1, <=40 slots per run; agreement is explored, not proved",
-		"the Confirms header field is not validated by the code: runs in which the Byzantine producer inflates it are a separate class in which the >2/3 monitor is not applied")
+		"the Confirms header field is chosen by the producer: runs in which the Byzantine producer inflates it are a separate class (violation key suffix /inflated-confirms); all monitors apply to it")
 }
 
 func (s *sim) fail(key, msg string) {
 	s.dead = true
+	if os.Getenv("C08_ONLY") != "" {
+		for _, b := range s.blocks {
+			fmt.Printf("  block #%d parent #%d h%d p%d byz=%v %s\n", b.idx, b.parent, b.no, b.producer, b.byz, types.ToBlockID(b.hash))
+		}
+	}
 	tr := s.trace
 	if len(tr) > 60 {
 		tr = tr[len(tr)-60:]
@@ -157,7 +167,7 @@ func (s *sim) observe(i int, what string) bool {
 		}
 		// (4) quorum behind the new LIB: distinct producers among the blocks this node knows that
 		// descend from (or are) the LIB block - only such blocks can confirm it
-		if s.honestConfirms {
+		{
 			if xi, ok := s.byHash[s.fixed[i][cur.no]]; ok {
 				prods := map[int]bool{}
 				for bi := range s.blocks {
@@ -167,7 +177,11 @@ func (s *sim) observe(i int, what string) bool {
 				}
 				need := 2*s.n/3 + 1
 				if len(prods) < need {
-					s.fail("lib-without-quorum", fmt.Sprintf("node %d after %s: LIB advanced to %d (#%d) although only %d distinct producers (need %d of %d) have produced the block or a descendant of it among all blocks the node has received", i, what, cur.no, xi, len(prods), need, s.n))
+					key := "lib-without-quorum"
+					if !s.honestConfirms {
+						key += "/inflated-confirms"
+					}
+					s.fail(key, fmt.Sprintf("node %d after %s: LIB advanced to %d (#%d) although only %d distinct producers (need %d of %d) have produced the block or a descendant of it among all blocks the node has received", i, what, cur.no, xi, len(prods), need, s.n))
 					return false
 				}
 			}
@@ -335,16 +349,34 @@ func run(c *vf.Ctx, ri, n, nbyz int, lie bool) {
 				parents = append(parents, nil)
 			}
 			for k, par := range parents {
-				// honest value: number of blocks since this producer's last block on the branch it extends
-				h := best.No + 1
+				// the block's parent: the named one, or the node's current best (after the first block of the
+				// slot was connected that is this first block)
+				pidx := -1
+				h := uint64(1)
 				if par != nil {
-					if pi, ok := s.byHash[rig.Hx(par)]; ok {
-						h = s.blocks[pi].no + 1
+					if x, ok := s.byHash[rig.Hx(par)]; ok {
+						pidx = x
 					}
-				} else if k > 0 {
-					h = best.No + 2 // the first block of this slot was connected already
+				} else {
+					cur, _ := s.nodes[o].Best()
+					if x, ok := s.byHash[rig.Hx(cur.Hash)]; ok {
+						pidx = x
+					}
 				}
-				conf := int64(h) - int64(s.lpb[o])
+				if pidx >= 0 {
+					h = s.blocks[pidx].no + 1
+				}
+				// the value a correct producer would put into Confirms: blocks since its own last block ON THE
+				// BRANCH IT EXTENDS (an equivocating producer's last block overall may be on another branch,
+				// which would silently inflate or shrink the range)
+				last := uint64(0)
+				for x := pidx; x >= 0; x = s.blocks[x].parent {
+					if s.blocks[x].producer == o {
+						last = s.blocks[x].no
+						break
+					}
+				}
+				conf := int64(h) - int64(last)
 				if conf < 1 {
 					conf = 1
 				}
